@@ -242,3 +242,7 @@ def strategy(tier):
 
 def n_random(tier):
     return 4000 if tier == "quick" else 60000
+
+
+def files(case):
+    return {"main.ms": ms.program([("print", S("@start"))] + case["stmts"] + [("print", S("@end"))])[0]}
